@@ -603,7 +603,7 @@ Proof.
   destruct (reload_changed c fs) as [c1|e] eqn:R; [|injection H as <- _; exact W].
   destruct (reload_changed_wf c fs c1 (wfd_cd b W c C) F R) as [W1 _].
   destruct args as [|a r]; [injection H as <- _; exact W|].
-  destruct (set_from_configure_command (cstore c1) (a :: r) false) as [[s2 dirty]|e] eqn:S; [|injection H as <- _; exact W].
+  destruct (set_from_configure_command (cstore c1) (live_args (cstore c1) (cl_or_empty b) (a :: r)) false) as [[s2 dirty]|e] eqn:S; [|injection H as <- _; exact W].
   pose proof (sfcc_wf _ _ _ _ _ W1 S) as W2.
   destruct dirty; injection H as <- _; apply wf_dir_mk; cbn; auto; try congruence.
   - apply (wfd_cd b W c C).
@@ -617,7 +617,7 @@ Proof.
   pose proof (sfcc_wf _ _ _ _ _ (wfd_cd b W c C) S) as W1.
   destruct (run_build pj fs false s1 (dupdate (cl_or_empty b) d)) as [[c2 late]|e] eqn:R; [|injection H as <- _; exact W].
   destruct (run_build_wf _ _ _ _ _ _ _ W1 F R) as [W2 _].
-  destruct (negb (check_unused (cstore c2) (dupdate (cl_or_empty b) d))); [injection H as <- _; exact W|].
+  destruct (negb (check_unused (cstore c2) d)); [injection H as <- _; exact W|].
   destruct late; injection H as <- _; apply wf_dir_mk; cbn; auto; try congruence.
   apply (wfd_cd b W c C).
 Qed.
@@ -687,7 +687,7 @@ Proof.
   unfold configure. destruct (cd b) as [c|]; [|intros H; injection H as <-; reflexivity].
   destruct (reload_changed c fs) as [c1|]; [|intros H; injection H as <-; reflexivity].
   destruct args as [|a r]; [discriminate|].
-  destruct (set_from_configure_command (cstore c1) (a :: r) false) as [[s2 [|]]|]; try discriminate.
+  destruct (set_from_configure_command (cstore c1) (live_args (cstore c1) (cl_or_empty b) (a :: r)) false) as [[s2 [|]]|]; try discriminate.
   intros H; injection H as <-; reflexivity.
 Qed.
 
@@ -705,7 +705,7 @@ Definition reconfigure_late (pj : projcfg) (fs : files) (b : bdir) (d : sdict) :
       match set_from_configure_command (cstore c) (some_vals d) false with
       | Ok (s1, _) =>
           match run_build pj fs false s1 (dupdate (cl_or_empty b) d) with
-          | Ok (c2, late) => late && check_unused (cstore c2) (dupdate (cl_or_empty b) d)
+          | Ok (c2, late) => late && check_unused (cstore c2) d
           | Err _ => false
           end
       | Err _ => false
@@ -719,7 +719,7 @@ Proof.
   unfold reconfigure. destruct (cd b) as [c|] eqn:C; [|congruence]. intros _.
   destruct (set_from_configure_command (cstore c) (some_vals d) false) as [[s1 dr]|]; [|intros H; injection H as <-; exact C].
   destruct (run_build pj fs false s1 (dupdate (cl_or_empty b) d)) as [[c2 late]|]; [|intros H; injection H as <-; exact C].
-  destruct (negb (check_unused (cstore c2) (dupdate (cl_or_empty b) d))); [intros H; injection H as <-; exact C|].
+  destruct (negb (check_unused (cstore c2) d)); [intros H; injection H as <-; exact C|].
   destruct late; [|discriminate]. intros H; injection H as <-. reflexivity.
 Qed.
 
@@ -731,7 +731,7 @@ Proof.
   unfold reconfigure, reconfigure_late. destruct (cd b) as [c|] eqn:C; [|congruence]. intros _.
   destruct (set_from_configure_command (cstore c) (some_vals d) false) as [[s1 dr]|]; [|intros _ H; injection H as <-; reflexivity].
   destruct (run_build pj fs false s1 (dupdate (cl_or_empty b) d)) as [[c2 late]|]; [|intros _ H; injection H as <-; reflexivity].
-  destruct (check_unused (cstore c2) (dupdate (cl_or_empty b) d)); cbn [negb]; [|intros _ H; injection H as <-; reflexivity].
+  destruct (check_unused (cstore c2) d); cbn [negb]; [|intros _ H; injection H as <-; reflexivity].
   destruct late; [discriminate|]. intros _ H. discriminate.
 Qed.
 
@@ -757,7 +757,7 @@ Theorem wipe_is_fresh_setup pj fs b d :
 Proof. reflexivity. Qed.
 
 Theorem first_configure_record pj fs b d b' : first_configure pj fs b d = (b', Done) ->
-  cl b' = Some (dupdate (cl_or_empty b) d) /\ exists c, cd b' = Some c /\ intro b' = Some (cstore c) /\ seen c = fs /\
+  cl b' = Some (strip_vals (dupdate (cl_or_empty b) d)) /\ exists c, cd b' = Some c /\ intro b' = Some (cstore c) /\ seen c = fs /\
   run_build pj fs true init_store (dupdate (cl_or_empty b) d) = Ok (c, false).
 Proof.
   unfold first_configure.
@@ -871,7 +871,7 @@ Qed.
 (* the persisted result of a successful `meson configure` when no option-file edit is pending *)
 Theorem configure_done fs b args b' c : wf_dir b -> cd b = Some c -> seen c = fs -> args <> [] ->
   configure fs b args = (b', Done) ->
-  exists s2 dirty, set_from_configure_command (cstore c) args false = Ok (s2, dirty) /\
+  exists s2 dirty, set_from_configure_command (cstore c) (live_args (cstore c) (cl_or_empty b) args) false = Ok (s2, dirty) /\
     cl b' = Some (update_cmd_line (cl_or_empty b) args) /\
     exists c', cd b' = Some c' /\ cstore c' = s2 /\ seen c' = fs.
 Proof.
@@ -879,7 +879,7 @@ Proof.
   destruct (reload_changed c fs) as [c1|] eqn:R; [|discriminate].
   apply (reload_same c fs c1 S) in R. subst c1. cbn [cstore seen] in H.
   destruct args as [|a r]; [congruence|].
-  destruct (set_from_configure_command (cstore c) (a :: r) false) as [[s2 dirty]|] eqn:E; [|discriminate].
+  destruct (set_from_configure_command (cstore c) (live_args (cstore c) (cl_or_empty b) (a :: r)) false) as [[s2 dirty]|] eqn:E; [|discriminate].
   exists s2, dirty. split; [reflexivity|].
   destruct dirty; injection H as <-; cbn; (split; [reflexivity|]).
   - eexists; split; [reflexivity|]. cbn. auto.
@@ -1470,7 +1470,7 @@ Proof.
   - destruct (set_from_configure_command (cstore c) (some_vals d) false) as [[s1 dr]|] eqn:S; [|discriminate].
     pose proof (sfcc_wf _ _ _ _ _ (wfd_cd b W c C) S) as W1.
     destruct (run_build pj fs false s1 (dupdate (cl_or_empty b) d)) as [[c2 late]|] eqn:R; [|discriminate].
-    destruct (negb (check_unused (cstore c2) (dupdate (cl_or_empty b) d))); [discriminate|].
+    destruct (negb (check_unused (cstore c2) d)); [discriminate|].
     destruct late; [discriminate|]. injection H as <-. cbn in C'. injection C' as <-.
     eapply run_build_option_set; eassumption.
   - unfold first_configure in H.
@@ -1492,6 +1492,30 @@ Qed.
 
 (* =================================================================================
    meson configure, lifted from set_from_configure_command (no option-file edit pending) *)
+Lemma live_args_in s rec args a : In a (live_args s rec args) -> In a args.
+Proof. unfold live_args. intros H. apply filter_In in H. tauto. Qed.
+Lemma live_args_some s rec args k v : In (k, Some v) args -> In (k, Some v) (live_args s rec args).
+Proof. intros H. unfold live_args. apply filter_In. split; [exact H | reflexivity]. Qed.
+Lemma live_args_keys s rec args k : In k (map fst (live_args s rec args)) -> In k (map fst args).
+Proof. intros H. apply in_map_iff in H. destruct H as [a [<- I]]. apply in_map. eapply live_args_in. exact I. Qed.
+Lemma live_args_nodup s rec : forall args, NoDup (map fst args) -> NoDup (map fst (live_args s rec args)).
+Proof.
+  induction args as [|a r IH]; intros ND; cbn; [constructor|]. cbn in ND. inversion ND as [|? ? NI ND']; subst.
+  destruct (negb (stale_drop s rec a)); cbn; [|auto]. constructor; [|auto].
+  intros H. apply NI. eapply live_args_keys. exact H.
+Qed.
+Lemma live_args_forall s rec (P : key -> Prop) args : Forall P (map fst args) -> Forall P (map fst (live_args s rec args)).
+Proof. rewrite !Forall_forall. intros F k I. apply F. eapply live_args_keys. exact I. Qed.
+Lemma live_args_untouched s rec args r : untouched args r -> untouched (live_args s rec args) r.
+Proof. intros U k I. apply U. eapply live_args_keys. exact I. Qed.
+(* a -U that names an existing override or option is not dropped *)
+Lemma live_args_none s rec args k : In (k, None) args ->
+  dmem (augments s) k || dmem (options s) k = true -> In (k, None) (live_args s rec args).
+Proof.
+  intros H E. unfold live_args. apply filter_In. split; [exact H|]. unfold stale_drop. cbn [fst snd].
+  apply orb_true_iff in E. destruct E as [-> | ->]; cbn; [reflexivity | rewrite andb_false_r; reflexivity].
+Qed.
+
 Theorem configure_sets fs b args b' c k v : wf_dir b -> cd b = Some c -> seen c = fs ->
   NoDup (map fst args) -> Forall cli_key (map fst args) ->
   configure fs b args = (b', Done) -> In (k, Some v) args ->
@@ -1500,7 +1524,8 @@ Theorem configure_sets fs b args b' c k v : wf_dir b -> cd b = Some c -> seen c 
 Proof.
   intros W C S ND F H I. assert (NE : args <> []) by (intros ->; destruct I).
   destruct (configure_done fs b args b' c W C S NE H) as [s2 [dr [E [_ [c' [C' [St _]]]]]]].
-  destruct (sfcc_last_value args (cstore c) false s2 dr k v (wfd_cd b W c C) ND F E I) as [kd [nv [K [V G]]]].
+  destruct (sfcc_last_value _ (cstore c) false s2 dr k v (wfd_cd b W c C) (live_args_nodup _ _ _ ND)
+              (live_args_forall _ _ _ _ F) E (live_args_some _ _ _ _ _ I)) as [kd [nv [K [V G]]]].
   exists c', kd, nv. rewrite St. auto.
 Qed.
 
@@ -1510,12 +1535,14 @@ Theorem configure_keeps fs b args b' c q : wf_dir b -> cd b = Some c -> seen c =
 Proof.
   intros W C S NE H U.
   destruct (configure_done fs b args b' c W C S NE H) as [s2 [dr [E [_ [c' [C' [St _]]]]]]].
-  exists c'. split; [exact C'|]. rewrite St. eapply sfcc_keeps; eassumption.
+  exists c'. split; [exact C'|]. rewrite St. eapply sfcc_keeps; [exact E|].
+  intros r I. apply live_args_untouched. apply U. exact I.
 Qed.
 
 Theorem configure_drop_override fs b args b' c k : wf_dir b -> cd b = Some c -> seen c = fs ->
   NoDup (map fst args) -> Forall cli_key (map fst args) ->
   configure fs b args = (b', Done) -> In (k, None) args ->
+  dmem (augments (cstore c)) k || dmem (options (cstore c)) k = true ->
   exists c', cd b' = Some c' /\
     dget (augments (cstore c')) k = None /\
     (dget (augments (cstore c)) k <> None ->
@@ -1524,10 +1551,11 @@ Theorem configure_drop_override fs b args b' c k : wf_dir b -> cd b = Some c -> 
        (oparent o = true -> get_value_for (cstore c') k = get_value_for (cstore c') (as_root k)) /\
        (oparent o = false -> get_value_for (cstore c') k = Ok (oval o))).
 Proof.
-  intros W C S ND F H I. assert (NE : args <> []) by (intros ->; destruct I).
+  intros W C S ND F H I X. assert (NE : args <> []) by (intros ->; destruct I).
   destruct (configure_done fs b args b' c W C S NE H) as [s2 [dr [E [_ [c' [C' [St _]]]]]]].
   exists c'. split; [exact C'|]. rewrite St.
-  apply (sfcc_drop_override args (cstore c) false s2 dr k (wfd_cd b W c C) ND F E I).
+  apply (sfcc_drop_override _ (cstore c) false s2 dr k (wfd_cd b W c C) (live_args_nodup _ _ _ ND)
+           (live_args_forall _ _ _ _ F) E (live_args_none _ _ _ _ I X)).
 Qed.
 
 Theorem configure_records fs b args b' : args <> [] -> configure fs b args = (b', Done) ->
@@ -1536,19 +1564,32 @@ Proof.
   intros NE H. unfold configure in H. destruct (cd b) as [c|]; [|discriminate].
   destruct (reload_changed c fs) as [c1|]; [|discriminate].
   destruct args as [|a r]; [congruence|].
-  destruct (set_from_configure_command (cstore c1) (a :: r) false) as [[s2 [|]]|]; try discriminate;
+  destruct (set_from_configure_command (cstore c1) (live_args (cstore c1) (cl_or_empty b) (a :: r)) false) as [[s2 [|]]|]; try discriminate;
     injection H as <-; reflexivity.
 Qed.
 
 (* =================================================================================
-   The recorded command line of a removed option (known finding) *)
-Theorem reconfigure_empty_succeeds_partial pj fs b c c2 : cd b = Some c ->
+   The recorded command line of a removed option (repaired): a reconfigure that is asked
+   nothing succeeds whenever the build files evaluate, whatever cmd_line.txt records; and
+   -U of a recorded key that is no option any more drops the record and nothing else *)
+Theorem reconfigure_empty_succeeds pj fs b c c2 : cd b = Some c ->
   run_build pj fs false (cstore c) (cl_or_empty b) = Ok (c2, false) ->
-  check_unused (cstore c2) (cl_or_empty b) = true ->
   reconfigure pj fs b [] = (mkB (Some c2) (Some (cl_or_empty b)) (Some (cstore c2)), Done).
 Proof.
-  intros C R U. unfold reconfigure. rewrite C. cbn [some_vals map set_from_configure_command].
-  unfold dupdate. cbn [fold_left]. rewrite R, U. reflexivity.
+  intros C R. unfold reconfigure. rewrite C. cbn [some_vals map set_from_configure_command].
+  unfold dupdate. cbn [fold_left]. rewrite R. reflexivity.
+Qed.
+
+Theorem configure_drop_stale_record fs b c k : cd b = Some c -> seen c = fs ->
+  dmem (augments (cstore c)) k = false -> dmem (options (cstore c)) k = false ->
+  dmem (cl_or_empty b) k = true ->
+  configure fs b [(k, None)] = (mkB (cd b) (Some (dpop (cl_or_empty b) k)) (intro b), Done).
+Proof.
+  intros C S A O R. unfold configure. rewrite C.
+  destruct (reload_changed c fs) as [c1|] eqn:E.
+  - apply (reload_same c fs c1 S) in E. subst c1. cbn [cstore seen].
+    unfold live_args, stale_drop. cbn [filter fst snd]. rewrite A, O, R. cbn. reflexivity.
+  - unfold reload_changed in E. rewrite S, !list_eqb_decl_refl in E. discriminate.
 Qed.
 
 (* =================================================================================
